@@ -148,6 +148,9 @@ func CheckCall(sc *Scenario, v *CallView, rs RuleSet, em int) []Violation {
 					add("local-changed-by-other-execution", "method-on-local", fmt.Sprintf("%s: rule %d keeps its own object (%d) in local lo, the method call reached object %d", c, x.Rule, x.Rule+500, e.C))
 				}
 			}
+			if e.Kind == EvAlias && e.C == 4 {
+				continue
+			}
 			if e.Kind == EvAlias && e.C&2 != 0 {
 				add("local-update-changed-injected-data", "", fmt.Sprintf("%s: rule %d copied an injected field / element into a local and updated the local; the injected value changed with it", c, x.Rule))
 			} else if e.Kind == EvAlias && e.C&1 != 0 {
@@ -298,6 +301,24 @@ func CheckCall(sc *Scenario, v *CallView, rs RuleSet, em int) []Violation {
 					add("conc-assignment-lost", "", fmt.Sprintf("%s: rule %d: the statement after the conc block did not see every value its children assigned", c, x.Rule))
 				}
 			}
+		}
+	}
+
+	// --- a plain name that this call injects is shared: what a rule assigned to it is what the caller finds there (C15)
+	c.mu.Lock()
+	ov := c.OvPtr
+	c.mu.Unlock()
+	if ov != nil && !panicked && v.CR >= 0 {
+		assigned := map[int64]bool{}
+		for _, x := range v.Execs {
+			for _, e := range x.Own {
+				if e.Kind == EvAlias && e.C == 4 {
+					assigned[int64(x.Rule)+300] = true
+				}
+			}
+		}
+		if len(assigned) > 0 && !assigned[*ov] {
+			add("shared-injected-not-visible", "assigned-name", fmt.Sprintf("%s: rules assigned the injected name ov (%v) but the caller's variable holds %d", c, assigned, *ov))
 		}
 	}
 
